@@ -275,6 +275,22 @@ class Ctx:
         self.cov["corpus"] = res
         self.cov["evaluations"] += len(names)
 
+    def known_witness(self, site, script):
+        """replay the witness of a recorded (open) known finding: still failing -> KNOWN-FINDING line, exit code unaffected"""
+        kf = [k for k in self.known_findings if k.get("property") == self.pid and k.get("status", "open") == "open" and k.get("site") == site]
+        if not kf:
+            return
+        env = dict(os.environ)
+        env.update({"PYTHONPATH": lib.REPO, "PYTHONDONTWRITEBYTECODE": "1", "PYTHONHASHSEED": "0"})
+        os.makedirs("/tmp/lnn_verif_scratch", exist_ok=True)
+        p = subprocess.run([lib.PY, os.path.join(VERIF, "harness", "corpus", script)], cwd="/tmp/lnn_verif_scratch", env=env,
+                           stdout=subprocess.PIPE, stderr=subprocess.STDOUT, text=True, timeout=600)
+        out = [l for l in p.stdout.strip().split("\n") if "WARNING" not in l]
+        self.cov["evaluations"] += 1
+        self.cov.setdefault("known_finding_witnesses", {})[script] = out[-1].strip() if out else ""
+        if out and out[-1].strip() == "FAIL" and not any(k["site"] == site for k in self.known):
+            self.known.append({"site": site, "what": kf[0].get("what", ""), "example": {"scenario": f"harness/corpus/{script}", "observed": "\n".join(out[-4:])}})
+
     def finish(self, level="proof", prop_res=None, build_st=None, extra_cov=None, rule=""):
         os.makedirs(EVID, exist_ok=True)
         os.makedirs(REPLAYS, exist_ok=True)
